@@ -15,6 +15,7 @@ def build(m):
     # data-structure invariant of the reader (LINES_OK, newline part): every line ends with '\n'
     m.elem_inv[('FileWrapper', 'lines')] = "x.endswith('\\n')"
     m.classes['ParseBuffer'] = {'items': TList(TRIPLE), 'loose': BOOL}
+    m.listlike['ParseBuffer'] = 'items'
     m.classes['BlockCls'] = {}
     m.classes['ReadResult'] = {}
     m.classes['Token'] = {'line_number': INT}
